@@ -210,6 +210,24 @@ pub fn full_bundle(text: &str) -> Vec<(&'static str, String)> {
         out.push(("introspection", introspection_bundle(schema)));
         if !executable.trim().is_empty() {
             out.push(("executable", exec_bundle(schema, &executable, "exec.graphql")));
+            // the executable definitions split alternately into two sources of one builder
+            let mut halves = [String::new(), String::new()];
+            let mut k = 0;
+            for def in &doc.definitions {
+                if matches!(
+                    def,
+                    ast::Definition::OperationDefinition(_) | ast::Definition::FragmentDefinition(_)
+                ) {
+                    halves[k % 2].push_str(&def.to_string());
+                    halves[k % 2].push('\n');
+                    k += 1;
+                }
+            }
+            let parts = vec![
+                (halves[0].clone(), "ops_a.graphql".to_string()),
+                (halves[1].clone(), "ops_b.graphql".to_string()),
+            ];
+            out.push(("executable_builder", exec_builder_bundle(schema, &parts).0));
         }
     }
     out
@@ -258,4 +276,26 @@ pub fn smith_bundle(bytes: &[u8]) -> Vec<(&'static str, String)> {
         }
     }
     out
+}
+
+/// Executable document built from several sources, then validated
+pub fn exec_builder_bundle(schema: &Valid<Schema>, parts: &[(String, String)]) -> (String, Vec<u64>) {
+    // start from the schema's sources: diagnostics may point into the schema's files
+    let mut errors = DiagnosticList::new(schema.sources.clone());
+    let mut b = ExecutableDocument::builder(Some(schema), &mut errors);
+    for (text, path) in parts {
+        b = b.parse(text.as_str(), path.as_str());
+    }
+    let doc = b.build();
+    let ids: Vec<u64> = doc.sources.keys().map(|id| id.__verif_raw()).collect();
+    let mut s = format!("EXEC BUILDER\n{}--doc--\n{doc}\n", diag_bundle(&errors));
+    match doc.validate(schema) {
+        Ok(v) => {
+            let _ = write!(s, "VALID\n{v}");
+        }
+        Err(e) => {
+            let _ = write!(s, "INVALID\n{}", diag_bundle(&e.errors));
+        }
+    }
+    (s, ids)
 }
